@@ -4,16 +4,16 @@ from .mir import callee, callee_matches, Prov
 from .ctx import where_of
 
 EXPLANATION = (
-    "Rules on the expander's MIR: (first-match) UserDefinedTransformer::transform iterates self.rules in order with a "
-    "plain slice iterator, uses pattern .0 and template .1 of the same rule with a fresh substitution map, and the "
-    "match-success edge returns from inside the loop; (no-match-error) the loop exit only builds "
-    "Err(MacroMissMatch); (kind-table) the complete (pattern kind x datum kind) decision table of match_datum, read by "
-    "abstract evaluation of its arms: `_`/`...` match anything, list and vector patterns defer to match_datum_stream on "
-    "data of the same kind and fail otherwise, identifiers consult the literal set (non-literal: bind and succeed; "
-    "literal: succeed only on a symbol compared for equality), a literal datum pattern matches only data of the same "
-    "kind and its verdict must depend on BOTH payloads; (template-total) every template variant is handled and "
-    "identifiers consult the substitution table first; (reexpand) a macro use is looked up before being treated as a "
-    "call and its expansion is re-submitted to transform_to_statement; (keywords) the core keyword table.")
+    '(first-match, no-match-error) rule-selection table of UserDefinedTransformer::transform by abstract '
+    'interpretation: three opaque rules x all eight match-outcome vectors — rules are tried in textual order up '
+    "to the first match, the matching rule's own template is filled from the substitution map its own pattern was "
+    'matched into (a fresh map per rule), no match => Err(MacroMissMatch); (kind-table) the complete (pattern '
+    'kind x datum kind) decision table of match_datum: `_`/`...` match anything, list and vector patterns defer '
+    'to match_datum_stream on data of the same kind and fail otherwise, identifiers consult the literal set, a '
+    'literal datum pattern matches only data of the same kind and its verdict depends on both payloads; '
+    '(template-total) every template variant is handled and identifiers consult the substitution table first; '
+    '(reexpand) a macro use is looked up before being treated as a call and its expansion is parsed again; '
+    '(keywords) the core keyword table.')
 NOT_DECIDED = ("the matching relation of match_datum_stream (a backtracking ellipsis matcher) over all pattern/input "
                "shapes, and the exact expansion text.")
 
